@@ -711,7 +711,8 @@ def main(tier):
         "part 1: every requirement shape (form x operator x constants, both quantities) is one case, non-trivial when it is "
         "satisfiable and implies a bound or uses !=; part 2: fixed core + seeded lattice programs (containment in/on polygons with offsets, "
         "containment with fixed / random (Uniform, Range) yaw, pitch and roll of flat wide and tall thin objects, "
-        "box volumes, visibility from a fixed ego, two objects on a polygonal vector field with requirement shapes, plus one "
+        "box volumes, visibility from a fixed ego (in the plane, above and below it, objects in / on the polygon), "
+        "field headings near +-180 degrees with bounded random deviations, two objects on a polygonal vector field with requirement shapes, plus one "
         "standard pairing program per class of unsound extracted interval); a case is one (program, object), non-trivial when "
         "its feasible probe set is neither empty nor the whole base; distinct by program text and object")
     ck.assumptions += [
@@ -719,7 +720,9 @@ def main(tier):
         "90 degrees (a Range between lattice angles is witnessed by the lattice angles inside it)",
         "pose replay: the spec's containment oracle is compared with the real containsObject on concrete lattice poses",
         "feasibility is decided over a finite witness set for the other object (under-approximation: safe for the verdict)",
-        "relative headings of exactly a half turn and visibility within a quarter unit of the view distance are don't-cares",
+        "relative headings of exactly a half turn and visibility within a quarter unit of the view distance are don't-cares; "
+        "relative-heading requirements are decided robustly (they must hold one degree to either side as well)",
+        "a bounded random heading deviation is witnessed by finitely many interior values",
         "regions that depend on another object's sampled position (visibility pruning with a random observer) are probed "
         "before that pass (observed by wrapping pruneVisibility, behaviour unchanged)",
         "the printers gen_pruning.shape_text / program_text are trusted glue (the real unpruned region is checked against the spec's base)",
